@@ -131,6 +131,16 @@ def make_cases(ctx, rnd):
                       "cfg": {"conc": conc, "mode": ["read", "writeto"][i % 2], "bufs": [rnd.choice([4096, B, 1000])], "preBytes": total,
                               "preBuf": rnd.choice([4096, B, 3 * B, 1000])},
                       "seed": ctx.seed * 1000 + 1200 + i, "perturb": rnd.choice([0, 10, 40]), "poison": True})
+    # a Reader whose WriteTo stopped on a failing sink (its pipeline is still alive: nothing is promised about it), Reset and
+    # used again: the new stream must not share anything with the old goroutines (race detector), and is read correctly
+    for i in range(12 if q else 150):
+        conc = [2, 4, 16][i % 3]
+        nb = rnd.choice([3, 5, 8])
+        total = nb * B - rnd.choice([0, 7])
+        cases.append({"id": len(cases) + 1, "kind": "reader", "leakok": True, "input": {"family": "text", "len": total, "seed": 140 + i, "p1": B},
+                      "opts": {"code": 4, "bcs": i % 2 == 0, "ccs": True, "level": 0, "conc": 1, "legacy": False, "handler": False},
+                      "cfg": {"conc": conc, "mode": ["read", "writeto"][i % 2], "bufs": [rnd.choice([4096, B])], "preBytes": total, "preSinkFail": rnd.choice([1, B, B + 5, 2 * B])},
+                      "seed": ctx.seed * 1000 + 1800 + i, "perturb": rnd.choice([0, 10, 40]), "poison": True, "slowio": rnd.choice([0, 50])})
     # a concurrent Writer whose sink failed, then Close, then Close again / Reset and a new frame: every call returns
     for i in range(16 if q else 200):
         conc = [2, 4, 16][i % 3]
@@ -164,7 +174,8 @@ def make_cases(ctx, rnd):
 
 def to_trace(c, r, race=""):
     """hook events of one run -> trace events for the pipeline trace specifications"""
-    base = {"hung": r["hung"], "panicked": r.get("panicked", ""), "race": race, "poison": r["poison"], "leaked": r["leaked"]}
+    # (leakok: the run abandons a pipeline in a way for which C08 promises nothing about its goroutines)
+    base = {"hung": r["hung"], "panicked": r.get("panicked", ""), "race": race, "poison": r["poison"], "leaked": 0 if c.get("leakok") else r["leaked"]}
     if r["hung"]:
         return [dict(base, ev="psens", case=c["id"], good=False)]
     ev = [{"ev": "pnew", "case": c["id"]}]
